@@ -158,6 +158,7 @@ thiserror! {
 }
 
 /// The parsing state for [`HitObjects`] in [`DecodeBeatmap`].
+#[cfg_attr(rosu_map_verif, derive(Clone, Debug))]
 pub struct HitObjectsState {
     pub last_object: Option<HitObjectType>,
     pub curve_points: Vec<PathControlPoint>,
